@@ -294,6 +294,20 @@ def judge(spec, rec):
             if 'a_{12}' not in params:
                 params.insert(len(names), 'a_{12}')
                 allnum = sorted(set(allnum) | {'a_{12}'})
+        if not variant and spec['seed'] % 2 == 0:
+            # object sharing: each DependentSampler OBJECT of this problem first serves another grader, in which the names
+            # it depends on are CONSTANTS rather than variables (an author may reuse a sampler; what the other grader
+            # makes of it must not change it)
+            for nd in spec['nodes']:
+                if nd['kind'] != 'dep':
+                    continue
+                used = X.names_of(nd['tree'])['vars']
+                if any(u.startswith('a_{') or table.get(u, {}).get('kind') == 'vec' for u in used):
+                    continue
+                call(lambda nd=nd, used=used: MatrixGrader(
+                    variables=[nd['name']], sample_from={nd['name']: sf[nd['name']]}, answers=nd['name'],
+                    user_constants={u: 1.5 for u in used}, user_functions=X.USER_FUNCS)(None, nd['name']))
+                rec.cls('dependent-sampler-object-shared-with-another-grader')
         cfg = dict(answers={'comparer_params': params, 'comparer': make_recorder(sink)}, variables=variables,
                    sample_from=sample_from, samples=spec['samples'], user_constants=uconst,
                    user_functions=X.USER_FUNCS, numbered_vars=['a'] if spec['numbered'] else [])
